@@ -26,8 +26,8 @@ RULE = ('cases = generated programs over one live Data.fs: commits, packs, a tra
 ASSUMPTIONS = ['repozo is driven through do_backup/do_recover/do_verify with an options object; the time comes from options.test_now (its own test '
                'hook) or, in half of the cases, from a clock bound as repozo.time that advances one second with every reading',
                'a flipped byte in a gzip file that leaves the decompressed stream identical is not a content change']
-BUDGET = {'quick': {'examples': 4000, 'workers': 8},
-          'thorough': {'examples': 30000, 'workers': 16}}
+BUDGET = {'quick': {'examples': 16000, 'workers': 8},
+          'thorough': {'examples': 100000, 'workers': 16}}
 
 
 def strategy(tier):
